@@ -21,6 +21,9 @@ Spec:   spec/MofCompile.tla      requirement machine (Total, PositionInside,
         MOF depending on a class of that name which is on the search path,
         G namespace entered by pragma (objects present, compiler caches not),
         then any qualifier/class/instance production.
+        Systematic dimensions: every optional part of every production
+        present/absent in every combination (`opt*` variants); lexeme classes
+        of the include file name (NUL, surrogate, over-long, below a file..).
 Binding: every TLC-enumerated session selected for the tier is rendered by
         harness/mofgen.py to real MOF text / files and compiled by the real
         MOFCompiler (compile_string, compile_file; MOFWBEMConnection, a
